@@ -108,6 +108,8 @@ contract(T + ".renew", "C09", requires=["amount is None or amount >= 0"], params
                                                       "result is False and unchanged(self, old(self)))",
              "granted-otherwise": "implies(self.allow_renewal and old(self)._phase != LifecyclePhase.TERMINATED, result is True and "
                                   "self._telomere_length >= old(self)._telomere_length)",
+             # SENESCENT -> (renewal) ACTIVE: a granted renewal of a senescent lifecycle makes it active again
+             "granted-renewal-revives-a-senescent-lifecycle": "implies(result and old(self)._phase == LifecyclePhase.SENESCENT, self._phase == LifecyclePhase.ACTIVE)",
          })
 
 contract(T + ".trigger_apoptosis", "C09", raises=[], callbacks=CB, options=OPT, ghost_exit=KEEP,
